@@ -241,13 +241,15 @@ Section PrintArr.
 Variables dec2f dec2d : list Z -> Z.
 Variable o : popts.
 Variable parr : parr_t.
+Variables zf zd : Z.
+Hypothesis Hz : zchoice zf zd.
 Notation item_ok := (item_ok dec2f dec2d).
 Notation iter_text := (iter_text dec2f dec2d).
 Notation iseq_from := (iseq_from dec2f dec2d).
 
 (* one iteration, compression on or off *)
 Lemma print_iter_any a0 rest size prev t tmp cols cols1 bb cv :
-  Forall goodc (a0 :: rest) -> Z.of_nat (length (a0 :: rest)) < 2 ^ 31 ->
+  Forall (goodc o zf zd) (a0 :: rest) -> Z.of_nat (length (a0 :: rest)) < 2 ^ 31 ->
   (forall p, prev = Some p -> scalar p) ->
   convert_to_range o (a0 :: rest) size = cv -> cv <> CUnmod ->
   print_arg_val o (match cv with CYes c _ => c | _ => a0 :: rest end) cols prev = Some (t, tmp, cols1, bb) ->
@@ -259,12 +261,12 @@ Lemma print_iter_any a0 rest size prev t tmp cols cols1 bb cv :
     nth_error (a0 :: rest) (inc - 1) = ilast its.
 Proof.
   intros Hg Hlen Hprev Hcv Hnu Hp. destruct (compress o) eqn:Ec.
-  - exact (print_iter dec2f dec2d o Ec a0 rest size prev t tmp cols cols1 bb cv Hg Hlen Hprev Hcv Hnu Hp).
+  - exact (print_iter dec2f dec2d o Ec zf zd Hz a0 rest size prev t tmp cols cols1 bb cv Hg Hlen Hprev Hcv Hnu Hp).
   - unfold convert_to_range in Hcv. rewrite Ec in Hcv. cbn [negb] in Hcv. rewrite !orb_true_r in Hcv. subst cv.
-    pose proof (Forall_inv Hg) as Hg0. destruct (goodc_facts a0 Hg0) as (Hs0 & _ & _).
+    pose proof (Forall_inv Hg) as Hg0. destruct (goodc_facts o zf zd a0 Hg0) as (Hs0 & _ & _).
     unfold print_arg_val in Hp. rewrite (pav_scalar o a0 rest cols prev 5 Hs0) in Hp.
     destruct (print_scalar o a0 cols) as [[[t' w'] c']|] eqn:Eps; [|discriminate]. inversion Hp; subst.
-    destruct (goodc_tok dec2f dec2d o a0 cols t tmp cols1 Hg0 Eps) as (Htk & Hnd & Hw).
+    destruct (goodc_tok dec2f dec2d o zf zd a0 cols t tmp cols1 Hg0 Eps) as (Htk & Hnd & Hw).
     exists [IVal a0 t], 1%nat. split; [reflexivity|]. split; [exact Hw|].
     split; [destruct a0; cbn in Hs0; try contradiction; reflexivity|]. split; [cbn [length]; lia|].
     split; [reflexivity|]. split; [split; [reflexivity|split; assumption]|reflexivity].
@@ -298,7 +300,7 @@ Definition sp4 : list Z := [32; 32; 32; 32].
 
 (* one iteration of the loop over the elements *)
 Lemma arr_step a0 rest prev i n acc (first bb : bool) wrt cols awtl fuel res :
-  Forall goodc (a0 :: rest) -> Z.of_nat (length (a0 :: rest)) < 2 ^ 31 ->
+  Forall (goodc o zf zd) (a0 :: rest) -> Z.of_nat (length (a0 :: rest)) < 2 ^ 31 ->
   n + 1 - i = Z.of_nat (length (a0 :: rest)) -> (forall p, prev = Some p -> scalar p) ->
   print_array_loop print_arg_val parr (S fuel) o (a0 :: rest) prev i n acc first bb wrt cols awtl = Some res ->
   exists its1 inc t (brk : bool) cols2 awtl2,
@@ -312,7 +314,7 @@ Proof.
   intros Hg Hlen Hn Hprev Hrun. cbn [print_array_loop] in Hrun.
   cbn [length] in Hn. replace (n <? i) with false in Hrun by lia.
   assert (Hty : hd_type (a0 :: rest) =? 97 = false)
-    by (pose proof (Forall_inv Hg) as Hg0; destruct a0; cbn in Hg0; try contradiction; reflexivity).
+    by (destruct (goodc_facts o zf zd a0 (Forall_inv Hg)) as (Hs0 & _); destruct a0; cbn in Hs0; try contradiction; reflexivity).
   destruct (convert_to_range o (a0 :: rest) (n + 1 - i)) as [|c kk|] eqn:Ecv; [| |discriminate].
   1: rewrite Hty in Hrun.
   2: destruct (conv_yes_head o _ _ _ _ Ecv) as (n0 & h0 & r0 & Ec0); rewrite Ec0 in Hrun;
@@ -336,7 +338,7 @@ Qed.
 
 (* the iterations after the first *)
 Lemma print_arr_loop_iseq : forall fuel elems prev i n acc bb wrt cols awtl text w c bb',
-  Forall goodc elems -> Z.of_nat (length elems) < 2 ^ 31 -> n + 1 - i = Z.of_nat (length elems) ->
+  Forall (goodc o zf zd) elems -> Z.of_nat (length elems) < 2 ^ 31 -> n + 1 - i = Z.of_nat (length elems) ->
   (forall p, prev = Some p -> scalar p) ->
   print_array_loop print_arg_val parr fuel o elems prev i n acc false bb wrt cols awtl = Some (text, w, c, bb') ->
   exists its sfx, text = acc ++ sfx /\ w = wrt + len sfx /\ bb' = bb /\
@@ -350,7 +352,7 @@ Proof.
   - destruct (arr_step a0 rest prev i n acc false bb wrt cols awtl fuel _ Hg Hlen Hn Hprev Hrun)
       as (its1 & inc & t & brk & cols2 & awtl2 & Hrange & Horig & Hit & Hsc & Hrun2).
     assert (Hl2 : length (skipn inc (a0 :: rest)) = (length (a0 :: rest) - inc)%nat) by apply skipn_length.
-    assert (Hg2 : Forall goodc (skipn inc (a0 :: rest)))
+    assert (Hg2 : Forall (goodc o zf zd) (skipn inc (a0 :: rest)))
       by (rewrite <- (firstn_skipn inc (a0 :: rest)) in Hg; now apply Forall_app in Hg as [_ Hg]).
     cbn [andb] in Hrun2. rewrite orb_false_r in Hrun2.
     apply IH in Hrun2; [|exact Hg2|rewrite Hl2; cbn [length] in *; lia|rewrite Hl2; cbn [length] in *; lia|exact Hsc].
@@ -364,7 +366,7 @@ Qed.
 
 (* the whole array *)
 Lemma print_array_iseq n ty elems cols blank text w c bb :
-  Forall goodc elems -> Z.of_nat (length elems) < 2 ^ 31 -> n = Z.of_nat (length elems) -> elems <> [] ->
+  Forall (goodc o zf zd) elems -> Z.of_nat (length elems) < 2 ^ 31 -> n = Z.of_nat (length elems) -> elems <> [] ->
   print_array print_arg_val parr o (VArr ty n :: elems) cols blank = Some (text, w, c, bb) ->
   exists its T, text = (if bb then sp4 else []) ++ 91 :: T ++ [93] /\ w = len text /\
     iseq_from false None its T /\ iorig its = elems /\ its <> [].
@@ -377,7 +379,7 @@ Proof.
   destruct (arr_step a0 rest None 1 n [91] true false 1 (cols + 1) _ _ _ Hg Hlen ltac:(lia) ltac:(discriminate) Eloop)
     as (its1 & inc & t & brk & cols2 & awtl2 & Hrange & Horig & Hit & Hsc & Hrun2).
   assert (Hl2 : length (skipn inc (a0 :: rest)) = (length (a0 :: rest) - inc)%nat) by apply skipn_length.
-  assert (Hg2 : Forall goodc (skipn inc (a0 :: rest)))
+  assert (Hg2 : Forall (goodc o zf zd) (skipn inc (a0 :: rest)))
     by (rewrite <- (firstn_skipn inc (a0 :: rest)) in Hg; now apply Forall_app in Hg as [_ Hg]).
   cbn [andb orb] in Hrun2.
   apply print_arr_loop_iseq in Hrun2;
@@ -517,8 +519,9 @@ Qed.
 
 (* the round trip of an array of values of one type: the scanner gives an array
    whose elements expand to the original elements *)
-Theorem roundtrip_array o ty elems text w :
-  Forall goodc elems -> homog elems -> Z.of_nat (length elems) + 1 < 2 ^ 31 ->
+Theorem roundtrip_array o zf zd ty elems text w :
+  zchoice zf zd ->
+  Forall (goodc o zf zd) elems -> homog elems -> Z.of_nat (length elems) + 1 < 2 ^ 31 ->
   print_arg_vals o (VArr ty (Z.of_nat (length elems)) :: elems) 0 = Some (text, w) ->
   exists ty' slots,
     w = len text /\
@@ -527,7 +530,7 @@ Theorem roundtrip_array o ty elems text w :
     = Ok (VArr ty' (Z.of_nat (length slots)) :: slots, []) /\
     expand slots = Some elems /\ ty' = last_type elems.
 Proof.
-  intros Hg Hh Hlen Hp. unfold print_arg_vals in Hp. cbn [length] in Hp.
+  intros Hz Hg Hh Hlen Hp. unfold print_arg_vals in Hp. cbn [length] in Hp.
   remember (S (length elems)) as f1 eqn:Ef1. cbn [print_vals_loop] in Hp.
   replace (Z.of_nat f1 <=? 0) with false in Hp by lia.
   replace (Z.of_nat f1 - 0) with (Z.of_nat (length elems) + 1) in Hp by lia.
@@ -548,7 +551,7 @@ Proof.
     destruct (single_token_reads [91; 93] 1 [VArr 32 0] ltac:(cbn; lia) eq_refl ltac:(lia) eq_refl
                 (Hs 1%nat None true false) (Hc 1%nat [] 0 true)) as [H1 H2].
     split; [reflexivity|]. split; [exact H1|]. split; [exact H2|]. split; reflexivity.
-  - destruct (print_array_iseq dec2f dec2d o print_arr _ ty (a0 :: rest) 0 false t tmp cols1 false Hg ltac:(lia) eq_refl
+  - destruct (print_array_iseq dec2f dec2d o print_arr zf zd Hz _ ty (a0 :: rest) 0 false t tmp cols1 false Hg ltac:(lia) eq_refl
                 ltac:(discriminate) Epa) as (its & T & -> & -> & Hseq & Horig & Hne).
     destruct (iseq_from_iseq dec2f dec2d _ _ _ _ Hseq Hne) as (sepz & T' & -> & HL & ->). cbn [app].
     assert (Hty : atys_ok 0 its).
@@ -573,17 +576,32 @@ Proof.
 Qed.
 End One.
 
+(* with the condition on the zeroes at list level *)
+Theorem roundtrip_array_nz (dec2f dec2d : list Z -> Z) o ty elems text w :
+  Forall (goodv o) elems -> nozmix elems -> homog elems -> Z.of_nat (length elems) + 1 < 2 ^ 31 ->
+  print_arg_vals o (VArr ty (Z.of_nat (length elems)) :: elems) 0 = Some (text, w) ->
+  exists ty' slots,
+    w = len text /\
+    count_printed_arg_vals dec2f dec2d text = Ok (true, 1 + Z.of_nat (length slots)) /\
+    scan_arg_vals dec2f dec2d text (1 + Z.of_nat (length slots))
+    = Ok (VArr ty' (Z.of_nat (length slots)) :: slots, []) /\
+    expand slots = Some elems /\ ty' = last_type elems.
+Proof.
+  intros Hg Hnz. destruct (zero_choice o elems Hg Hnz) as (zf & zd & Hz & Hg').
+  exact (roundtrip_array dec2f dec2d o zf zd ty elems text w Hz Hg').
+Qed.
+
 (* an array with an elided run, a plain value and a constant run; linelength 20
    puts line breaks inside *)
 Definition example_elems : list av := map VI [1; 2; 3; 4; 5; 6; 9; 8; 8; 8; 8; 8; 8].
-Lemma roundtrip_array_example :
-  Forall goodc example_elems /\ homog example_elems /\
+Lemma roundtrip_array_example : forall o,
+  Forall (goodv o) example_elems /\ homog example_elems /\
   exists w, print_arg_vals {| lossless := true; prec := 2; linelength := 20; compress := true |}
     (VArr 105 (Z.of_nat (length example_elems)) :: example_elems) 0
   = Some ([91; 49; 32; 46; 46; 46; 32; 54; 32; 57; 32; 54; 120; 56; 93], w).
 Proof.
-  split; [|split].
-  - unfold example_elems. cbn [map]. repeat constructor; cbn; lia.
+  intros o. split; [|split].
+  - unfold example_elems. cbn [map]. repeat (constructor; [left; cbn; unfold small_k, good_k; lia|]). constructor.
   - intros a b Ha Hb. unfold example_elems in *. apply in_map_iff in Ha as (x & <- & _).
     apply in_map_iff in Hb as (y & <- & _). reflexivity.
   - eexists. vm_compute. reflexivity.
